@@ -17,6 +17,9 @@ package comp
 //   instantns s ns  the same with a fraction of a second (rounded to the second by the code)
 //   date s / tod s  the calendar date / time of day of that instant through DateType / TimeType
 //   period ns       a time period with relative end time ns (incl. JSON round trip)
+//   pseq m d1 d2 …  documents d1, d2, … (SEa SEr R<n> A<n> E S) decoded one after the other into ONE value,
+//                   m = direct | outer (through a LoadControlLimitDataType decoded into repeatedly)
+//   reuse k v…      one receiver used repeatedly (k = sn k d | dur z | art unixsec)
 
 import (
 	"encoding/json"
@@ -690,6 +693,383 @@ func numOnePeriod(s *numStats, dr *h.Driver, ns int64) {
 	s.evals["period:to-the-second"]++
 }
 
+// ---------------------------------------------------------------- sequences of decodes into one value
+
+// canonT classifies a start / end time: '-' absent, 'a' instant (ns since the epoch), 'r' duration
+// (ns), '?' neither. Parsed with the standard library and the period library, not with the code.
+func canonT(a *model.AbsoluteOrRelativeTimeType) (kind byte, v int64, txt string) {
+	if a == nil {
+		return '-', 0, ""
+	}
+	txt = string(*a)
+	for _, l := range []string{"2006-01-02T15:04:05Z", "2006-01-02T15:04:05", "2006-01-02T15:04:05.999999999Z"} {
+		if t, err := time.ParseInLocation(l, txt, time.UTC); err == nil {
+			return 'a', t.UnixNano(), txt
+		}
+	}
+	if p, err := period.Parse(txt); err == nil {
+		return 'r', int64(p.DurationApprox()), txt
+	}
+	return '?', 0, txt
+}
+
+func showT(kind byte, v int64) string {
+	switch kind {
+	case '-':
+		return "-"
+	case 'a':
+		return fmt.Sprintf("a:%d", v)
+	case 'r':
+		return fmt.Sprintf("r:%d", v)
+	}
+	return "?"
+}
+
+type periodState struct {
+	sk, ek byte
+	sv, ev int64
+	st, et string
+}
+
+func periodStateOf(tp *model.TimePeriodType) periodState {
+	var ps periodState
+	if tp == nil {
+		ps.sk, ps.ek = '-', '-'
+		return ps
+	}
+	ps.sk, ps.sv, ps.st = canonT(tp.StartTime)
+	ps.ek, ps.ev, ps.et = canonT(tp.EndTime)
+	return ps
+}
+
+func (ps periodState) String() string { return showT(ps.sk, ps.sv) + " " + showT(ps.ek, ps.ev) }
+
+// parsePeriodState reads a driver answer "start end" (each "-", "a:<ns>" or "r:<ns>").
+func parsePeriodState(ans string) (ps periodState, ok bool) {
+	f := strings.Fields(ans)
+	if len(f) != 2 {
+		return ps, false
+	}
+	one := func(w string) (byte, int64, bool) {
+		if w == "-" {
+			return '-', 0, true
+		}
+		if len(w) > 2 && (w[0] == 'a' || w[0] == 'r') && w[1] == ':' {
+			v, err := strconv.ParseInt(w[2:], 10, 64)
+			return w[0], v, err == nil
+		}
+		return '?', 0, false
+	}
+	var o1, o2 bool
+	ps.sk, ps.sv, o1 = one(f[0])
+	ps.ek, ps.ev, o2 = one(f[1])
+	return ps, o1 && o2
+}
+
+// periodDoc builds the JSON text of a document kind at the harness clock `base`:
+// SEa start+end absolute, SEr start+end relative, R<n> only a relative end of n s, A<n> only an
+// absolute end n s ahead, E empty, S only a start.
+func periodDoc(kind string, base time.Time) (text string, want periodState) {
+	abs := func(d time.Duration) (string, int64) {
+		t := base.Add(d).Round(time.Second).UTC()
+		return t.Format("2006-01-02T15:04:05Z"), t.UnixNano()
+	}
+	rel := func(d time.Duration) (string, int64) {
+		p, _ := period.NewOf(d)
+		return p.String(), int64(d)
+	}
+	want.sk, want.ek = '-', '-'
+	var f []string
+	setS := func(txt string, k byte, v int64) {
+		want.sk, want.sv, want.st = k, v, txt
+		f = append(f, fmt.Sprintf("%q:%q", "startTime", txt))
+	}
+	setE := func(txt string, k byte, v int64) {
+		want.ek, want.ev, want.et = k, v, txt
+		f = append(f, fmt.Sprintf("%q:%q", "endTime", txt))
+	}
+	switch {
+	case kind == "SEa":
+		t, v := abs(10 * time.Second)
+		setS(t, 'a', v)
+		t, v = abs(time.Hour)
+		setE(t, 'a', v)
+	case kind == "SEr":
+		t, v := rel(10 * time.Second)
+		setS(t, 'r', v)
+		t, v = rel(time.Hour)
+		setE(t, 'r', v)
+	case kind == "S":
+		t, v := abs(20 * time.Second)
+		setS(t, 'a', v)
+	case kind == "E":
+	case strings.HasPrefix(kind, "R"):
+		n, err := strconv.Atoi(kind[1:])
+		if err != nil {
+			panic("bad period document " + kind)
+		}
+		t, v := rel(time.Duration(n) * time.Second)
+		setE(t, 'r', v)
+	case strings.HasPrefix(kind, "A"):
+		n, err := strconv.Atoi(kind[1:])
+		if err != nil {
+			panic("bad period document " + kind)
+		}
+		t, v := abs(time.Duration(n) * time.Second)
+		setE(t, 'a', v)
+	default:
+		panic("bad period document " + kind)
+	}
+	return "{" + strings.Join(f, ",") + "}", want
+}
+
+// numOnePeriodSeq decodes a sequence of documents into ONE Go value (directly, or through a
+// LoadControlLimitDataType that is decoded into repeatedly). After every decode:
+//   tie    the value against Spine.TP.decode (previous value, document, clock bracket), GetDuration and
+//          MarshalJSON against getDuration / encode;
+//   SPEC   history independence: the value, its remaining duration and its JSON are those of the same
+//          document decoded into a fresh value at the same time; a relative end time is read back to the
+//          second; a copy of the earlier value (sharing its pointers) is unchanged by the decode.
+func numOnePeriodSeq(s *numStats, dr *h.Driver, op string) {
+	f := strings.Fields(op)
+	if len(f) < 3 || (f[1] != "direct" && f[1] != "outer") {
+		panic("bad op " + op)
+	}
+	outerMode := f[1] == "outer"
+	sec := int64(time.Second)
+	now := func() int64 { return time.Now().UnixNano() }
+	var tp model.TimePeriodType
+	var outer model.LoadControlLimitDataType
+	cur := func() *model.TimePeriodType {
+		if outerMode {
+			return outer.TimePeriod
+		}
+		return &tp
+	}
+	within := func(a, b, tol int64) bool { return a-b <= tol && b-a <= tol }
+	bad := map[string][]string{}
+	fail := func(key, format string, a ...any) { bad[key] = append(bad[key], fmt.Sprintf(format, a...)) }
+	const kHist, kAlias, kSec = "C19/period-decode-depends-on-history", "C19/period-decode-writes-through-shared-pointer", "C19/period-not-to-the-second"
+
+	for i, kind := range f[2:] {
+		text, doc := periodDoc(kind, time.Now())
+		prev := periodStateOf(cur())
+		// a copy of the earlier value: its own struct, the same pointers
+		var snap *model.TimePeriodType
+		var snapDur time.Duration
+		var snapErr error
+		var tSnap int64
+		if i > 0 && cur() != nil {
+			c := *cur()
+			snap = &c
+			tSnap = now()
+			snapDur, snapErr = snap.GetDuration()
+		}
+		snapState := periodStateOf(snap)
+
+		t0 := now()
+		var err error
+		if outerMode {
+			err = json.Unmarshal([]byte(`{"limitId":1,"timePeriod":`+text+`}`), &outer)
+		} else {
+			err = json.Unmarshal([]byte(text), &tp)
+		}
+		t1 := now()
+		if err != nil || cur() == nil {
+			fail(kHist, "decode %d (%s %s): error %v", i+1, kind, text, err)
+			break
+		}
+		got := periodStateOf(cur())
+
+		// ---- tie: Spine.TP.decode at both ends of the clock bracket
+		lo := dr.Ask(fmt.Sprintf("pdec %s %s %d", prev, doc, t0))
+		hi := dr.Ask(fmt.Sprintf("pdec %s %s %d", prev, doc, t1))
+		okTie := false
+		l, ok1 := parsePeriodState(lo)
+		hgh, ok2 := parsePeriodState(hi)
+		if ok1 && ok2 {
+			okTie = got.sk == l.sk && got.sv == l.sv && got.ek == l.ek && got.ek == hgh.ek &&
+				((got.ek == 'a' && l.ev <= got.ev && got.ev <= hgh.ev) || (got.ek != 'a' && got.ev == l.ev))
+		}
+		if !okTie {
+			s.mismatch(op, fmt.Sprintf("after decode %d (%s): %s", i+1, kind, got), fmt.Sprintf("between %q and %q", lo, hi), "value after UnmarshalJSON: start end (a:instant ns, r:duration ns, -:absent)")
+		}
+
+		// ---- GetDuration and MarshalJSON of the reused value
+		t2 := now()
+		dur, derr := cur().GetDuration()
+		t3 := now()
+		js, jerr := json.Marshal(cur())
+		t4 := now()
+		{
+			a, b := dr.Ask(fmt.Sprintf("pdur %s %d", got, t3)), dr.Ask(fmt.Sprintf("pdur %s %d", got, t2))
+			impl := "invalid"
+			if derr == nil {
+				impl = strconv.FormatInt(int64(dur), 10)
+			}
+			ok := a == "invalid" && b == "invalid" && derr != nil
+			if !ok && derr == nil {
+				x, e1 := strconv.ParseInt(a, 10, 64)
+				y, e2 := strconv.ParseInt(b, 10, 64)
+				ok = e1 == nil && e2 == nil && x <= int64(dur) && int64(dur) <= y
+			}
+			if !ok {
+				s.mismatch(op, fmt.Sprintf("GetDuration after decode %d (%s) of %s: %s", i+1, kind, got, impl), fmt.Sprintf("in [%s, %s]", a, b), "remaining duration in ns or invalid")
+			}
+		}
+		var wire model.TimePeriodType
+		type rawPeriod struct {
+			StartTime *model.AbsoluteOrRelativeTimeType `json:"startTime,omitempty"`
+			EndTime   *model.AbsoluteOrRelativeTimeType `json:"endTime,omitempty"`
+		}
+		var raw rawPeriod
+		if jerr != nil || json.Unmarshal(js, &raw) != nil {
+			fail(kHist, "MarshalJSON after decode %d (%s): %s %v", i+1, kind, js, jerr)
+		} else {
+			wire.StartTime, wire.EndTime = raw.StartTime, raw.EndTime
+			w := periodStateOf(&wire)
+			a, b := dr.Ask(fmt.Sprintf("penc %s %d", got, t4)), dr.Ask(fmt.Sprintf("penc %s %d", got, t3))
+			pa, ok1 := parsePeriodState(a)
+			pb, ok2 := parsePeriodState(b)
+			ok := false
+			if ok1 && ok2 {
+				ok = w.sk == pa.sk && w.sv == pa.sv && w.ek == pa.ek && pa.ev <= w.ev && w.ev <= pb.ev
+			}
+			if !ok {
+				s.mismatch(op, fmt.Sprintf("MarshalJSON after decode %d (%s) of %s: %s", i+1, kind, got, w), fmt.Sprintf("between %q and %q", a, b), "document written")
+			}
+		}
+
+		// ---- SPEC: the same document into a fresh value, now
+		var fresh model.TimePeriodType
+		t5 := now()
+		ferr := json.Unmarshal([]byte(text), &fresh)
+		fs := periodStateOf(&fresh)
+		fdur, fderr := fresh.GetDuration()
+		fjs, _ := json.Marshal(&fresh)
+		t6 := now()
+		span := t6 - t0
+		same := ferr == nil && got.sk == fs.sk && got.st == fs.st && got.ek == fs.ek &&
+			((got.ek == 'a' && within(got.ev, fs.ev, sec+span)) || (got.ek != 'a' && got.et == fs.et))
+		if !same {
+			fail(kHist, "decode %d of %s (%s) into the value that held [%s] gives [%s]; into a fresh value [%s]", i+1, kind, text, prev, got, fs)
+		} else if (derr == nil) != (fderr == nil) || (derr == nil && !within(int64(dur), int64(fdur), sec+span)) {
+			fail(kHist, "after decode %d of %s into the value that held [%s]: GetDuration %v (err %v); fresh value %v (err %v)", i+1, kind, prev, dur, derr, fdur, fderr)
+		} else if jerr == nil {
+			var r2 rawPeriod
+			_ = json.Unmarshal(fjs, &r2)
+			w1, w2 := periodStateOf(&model.TimePeriodType{StartTime: raw.StartTime, EndTime: raw.EndTime}), periodStateOf(&model.TimePeriodType{StartTime: r2.StartTime, EndTime: r2.EndTime})
+			if w1.sk != w2.sk || w1.st != w2.st || w1.ek != w2.ek || !within(w1.ev, w2.ev, sec+span) {
+				fail(kHist, "after decode %d of %s into the value that held [%s]: MarshalJSON %s; fresh value %s", i+1, kind, prev, js, fjs)
+			}
+		}
+		// clause (e) on the reused value
+		if doc.sk == '-' && doc.ek == 'r' {
+			if derr != nil || int64(dur)%sec != 0 || int64(dur) > doc.ev-(t2-t1)+sec || int64(dur) < doc.ev-(t3-t0)-sec {
+				key := kSec
+				if fderr == nil && within(int64(fdur), doc.ev, sec+span) {
+					key = kHist // a fresh value reads it back correctly: the previous content interferes
+				}
+				fail(key, "relative end time %v decoded into the value that held [%s] is read back as %v (err %v)", time.Duration(doc.ev), prev, dur, derr)
+			}
+		}
+		_ = t5
+
+		// ---- SPEC: the copy of the earlier value is untouched
+		if snap != nil {
+			after := periodStateOf(snap)
+			t7 := now()
+			d2, e2 := snap.GetDuration()
+			t8 := now()
+			if after.sk != snapState.sk || after.st != snapState.st || after.ek != snapState.ek || after.et != snapState.et {
+				fail(kAlias, "a copy of the value [%s] taken before decode %d (%s) reads [%s] afterwards", snapState, i+1, kind, after)
+			} else if (e2 == nil) != (snapErr == nil) || (e2 == nil && (int64(d2) > int64(snapDur)+sec || int64(d2) < int64(snapDur)-(t8-tSnap)-sec)) {
+				fail(kAlias, "a copy of the value [%s] taken before decode %d (%s): GetDuration %v (err %v) before, %v (err %v) after", snapState, i+1, kind, snapDur, snapErr, d2, e2)
+			}
+			_ = t7
+		}
+	}
+	if len(bad) > 0 {
+		keys := make([]string, 0, len(bad))
+		for k := range bad {
+			keys = append(keys, k)
+		}
+		sort.Strings(keys)
+		for _, k := range keys {
+			s.fail(k, uint64(len(f)), op, strings.Join(bad[k], "; "))
+		}
+		s.evals["pseq:off"]++
+		return
+	}
+	s.evals["pseq:"+f[1]]++
+}
+
+// numOneReuse uses one receiver repeatedly: the pure readers of ScaledNumberType, DurationType and
+// AbsoluteOrRelativeTimeType answer the same every time and leave the receiver as it was.
+func numOneReuse(s *numStats, op string) {
+	f := strings.Fields(op)
+	arg := func(i int) int64 {
+		v, err := strconv.ParseInt(f[i], 10, 64)
+		if err != nil {
+			panic("bad op " + op)
+		}
+		return v
+	}
+	var notes []string
+	note := func(format string, a ...any) { notes = append(notes, fmt.Sprintf(format, a...)) }
+	switch f[1] {
+	case "sn":
+		sn := model.NewScaledNumberType(numDec(arg(2), int(arg(3))))
+		n0, s0 := *sn.Number, *sn.Scale
+		j1, _ := json.Marshal(sn)
+		g1 := sn.GetValue()
+		g2 := sn.GetValue()
+		j2, _ := json.Marshal(sn)
+		var fresh model.ScaledNumberType
+		_ = json.Unmarshal(j1, &fresh)
+		g3 := fresh.GetValue()
+		g4 := sn.GetValue()
+		if math.Float64bits(g1) != math.Float64bits(g2) || math.Float64bits(g1) != math.Float64bits(g4) || math.Float64bits(g1) != math.Float64bits(g3) ||
+			*sn.Number != n0 || *sn.Scale != s0 || string(j1) != string(j2) {
+			note("ScaledNumberType %s: GetValue %v %v %v (decoded copy %v), number/scale %d/%d -> %d/%d, json %s -> %s", j1, g1, g2, g4, g3, n0, s0, *sn.Number, *sn.Scale, j1, j2)
+		}
+	case "dur":
+		d := model.NewDurationType(time.Duration(arg(2)) * hundredMs)
+		txt := string(*d)
+		r1, e1 := d.GetTimeDuration()
+		r2, e2 := d.GetTimeDuration()
+		a := model.NewAbsoluteOrRelativeTimeTypeFromDuration(time.Duration(arg(2)) * hundredMs)
+		r3, e3 := a.GetTimeDuration()
+		rel := a.IsRelativeTime()
+		dt, e4 := a.GetDurationType()
+		r5, e5 := a.GetTimeDuration()
+		if r1 != r2 || (e1 == nil) != (e2 == nil) || string(*d) != txt || r3 != r1 || r5 != r1 || e3 != nil || e5 != nil || !rel || e4 != nil || dt == nil || string(*dt) != txt || string(*a) != txt {
+			note("DurationType %q: %v/%v then %v/%v; as AbsoluteOrRelativeTimeType %q: %v %v, relative %v, GetDurationType %v (err %v), text now %q", txt, r1, e1, r2, e2, string(*a), r3, r5, rel, dt, e4, string(*d))
+		}
+	case "art":
+		t := time.Unix(arg(2), 0).UTC()
+		a := model.NewAbsoluteOrRelativeTimeTypeFromTime(t)
+		txt := string(*a)
+		t1, e1 := a.GetTime()
+		rel := a.IsRelativeTime()
+		_, e2 := a.GetTimeDuration()
+		t3, e3 := a.GetDateTimeType().GetTime()
+		_, e4 := a.GetDurationType()
+		t5, e5 := a.GetTime()
+		if e1 != nil || e3 != nil || e5 != nil || !t1.Equal(t) || !t3.Equal(t) || !t5.Equal(t) || rel || e2 == nil || e4 == nil || string(*a) != txt {
+			note("AbsoluteOrRelativeTimeType %q: GetTime %v/%v, %v/%v, %v/%v; relative %v; text now %q", txt, t1, e1, t3, e3, t5, e5, rel, string(*a))
+		}
+	default:
+		panic("bad op " + op)
+	}
+	if len(notes) > 0 {
+		s.fail("C19/receiver-changed-by-use", absI(arg(2)), op, strings.Join(notes, "; "))
+		s.evals["reuse:off"]++
+		return
+	}
+	s.evals["reuse:"+f[1]]++
+}
+
 // ---------------------------------------------------------------- op dispatcher (corpus, replay)
 
 func numRunOp(s *numStats, dr *h.Driver, op string) {
@@ -735,6 +1115,10 @@ func numRunOp(s *numStats, dr *h.Driver, op string) {
 		numOneTimeOfDay(s, arg(1))
 	case "period":
 		numOnePeriod(s, dr, arg(1))
+	case "pseq":
+		numOnePeriodSeq(s, dr, op)
+	case "reuse":
+		numOneReuse(s, op)
 	default:
 		panic("bad op " + op)
 	}
@@ -1004,6 +1388,8 @@ func TestNumeric(t *testing.T) {
 		"instant 0 0", "instant -62135596800 0", "instant 253402300799 0", "instant 1727352000 7200", "instant 951782400 -34200",
 		"instantns 0 500000000", "instantns 1727352000 499999999", "instantns -62135596800 1",
 		"date 0", "date -62135596800", "date 253402300799", "date 951782400", "tod 0", "tod 86399", "tod 43200",
+		"pseq direct SEa R90", "pseq outer SEa R90", "pseq direct A3600 R90", "pseq outer A3600 R90 E R30", "pseq direct R90 R90", "pseq direct SEr A60 S R5",
+		"reuse sn 29 2", "reuse sn -199998 1", "reuse dur 36001", "reuse dur -5", "reuse art 1727352000",
 		"period 0", "period 7200000000000", "period -5000000000", "period 1500000000", "period 86400000000000", "period 259200000000000000",
 	}
 	t0 := time.Now()
@@ -1319,6 +1705,40 @@ func TestNumeric(t *testing.T) {
 			ns = -rng.Int63n(1000*86400) * int64(time.Second)
 		}
 		numOnePeriod(ps, d, ns)
+	}
+	// sequences of decodes into one value: all ordered pairs of document kinds, both modes, then random
+	// longer sequences; repeated use of one receiver
+	kinds := []string{"SEa", "SEr", "R90", "A3600", "E", "S"}
+	for _, mode := range []string{"direct", "outer"} {
+		for _, a := range kinds {
+			for _, b := range kinds {
+				numOnePeriodSeq(ps, d, fmt.Sprintf("pseq %s %s %s", mode, a, b))
+			}
+		}
+	}
+	for i := 0; i < h.Scale(600, 6000); i++ {
+		op := "pseq " + []string{"direct", "outer"}[rng.Intn(2)]
+		for n := 2 + rng.Intn(4); n > 0; n-- {
+			switch k := rng.Intn(8); {
+			case k < 4:
+				op += " " + kinds[rng.Intn(len(kinds))]
+			case k < 6:
+				op += fmt.Sprintf(" R%d", 1+rng.Intn(200000))
+			default:
+				op += fmt.Sprintf(" A%d", rng.Intn(200000)-1000)
+			}
+		}
+		numOnePeriodSeq(ps, d, op)
+	}
+	for i := 0; i < h.Scale(2000, 20000); i++ {
+		switch rng.Intn(3) {
+		case 0:
+			numOneReuse(ps, fmt.Sprintf("reuse sn %d %d", rng.Int63n(1<<uint(4+rng.Intn(40)))-rng.Int63n(1<<20), rng.Intn(5)))
+		case 1:
+			numOneReuse(ps, fmt.Sprintf("reuse dur %d", rng.Int63n(3000*864000)-rng.Int63n(864000)))
+		default:
+			numOneReuse(ps, fmt.Sprintf("reuse art %d", rng.Int63n(253402300799)))
+		}
 	}
 	ps.flush(r)
 	phase("periods")
